@@ -246,7 +246,7 @@ PROPS = {
         depth={'quick': 4, 'thorough': 5},
         rule='all sequences of exactly k operations over {enqueue_event (the type under test, a second tracked type of the other storage class handled where the first is deferred, an empty event), process_event (handled / deferred by state / deferred by action), submit from an action, state changes incl. entering a '
              'no-history submachine (pool reset), drain, single step, copy-construct, copy-assign, move-construct, move-assign, clear, stop} followed by destruction with events pending, '
-             'for every event type of the zoo, on backmp11 (default and favor_compile_time) and back (deque and circular queues)',
+             'for every event type of the zoo, on backmp11 (default and favor_compile_time), back (deque and circular queues) and back11',
         level_note='Trusted: the ledger and checksum code in storage/storage.cpp, clang 14 sanitizers. Not covered: event types outside the zoo, sequences longer than k.',
         level_text='Every sequence of k storage-relevant operations is executed for each event type of a zoo spanning sizes 1-512, alignments 1-64 and trivial / non-trivial / throwing-move / self-referential '
                    'classes; every dispatched object is compared with the submitted one (bytes, self pointer, alignment), every tracked object must be destroyed exactly once at the address it was constructed at, '
